@@ -269,7 +269,8 @@ def run_history(rec, case):
         skw['async_handlers'] = False
         hcfg['suspend'] = {'message': rng.choice([0.05, 0.25])}
         rec.count('histories_with_slow_synchronous_handlers')
-    sim = scen.make_sim(srv, server_kwargs=skw,
+    sim = scen.make_sim(srv, real_ws_driver=bool(case.get('tws')),
+                        server_kwargs=skw,
                         handler_cfg=dict(hcfg, connect=script, boom=boom),
                         policy='random', seed=rng.randrange(1 << 30),
                         yield_prob=rng.choice([0.0, 0.3]),
@@ -824,6 +825,8 @@ def run_shard(spec):
             c['aio'] = 'H'
         for c in cases[2::4]:
             c['aio'] = 'N'     # ... and behind the tornado adapter
+        for c in cases[1::3]:
+            c['tws'] = True    # threaded server: the real simple_websocket driver
         scen.run_cases(rec, cases, dispatch)
     return rec.result()
 
